@@ -4,6 +4,13 @@ pub mod memseq;
 pub mod model;
 pub mod c14;
 pub mod c02;
+pub mod c01;
+pub mod hscript;
+pub mod hyb;
+pub mod io;
+pub mod value;
+pub mod c16;
+pub mod fetchseq;
 pub mod lin;
 pub mod out;
 pub mod rng;
